@@ -10,6 +10,7 @@ scaffold at least one texel long).
 
 import itertools
 import math
+import re
 
 from mc import pv
 from mc.engine import Check, h64
@@ -84,7 +85,9 @@ class C08(Check):
 
     def shards(self, tier):
         n = 32 if tier == "quick" else 64
-        return [(bpt, c, n, tier) for bpt in (BPTS if tier == "quick" else BPTS_THOROUGH) for c in range(n)]
+        return [(bpt, c, n, tier) for bpt in (BPTS if tier == "quick" else BPTS_THOROUGH) for c in range(n)] + [
+            ("mixed", bpt, tier) for bpt in (BPTS if tier == "quick" else BPTS_THOROUGH)
+        ]
 
     def run_case(self, inp, bpt, counts, order, painted, ctx):
         """counts: per input scaffold texel count (0 = absent)"""
@@ -119,6 +122,15 @@ class C08(Check):
         ospec = pv.out_spec(out)
         want = {name: [tuple(r[:5]) if r[0] == "F" else tuple(r) for r in rows] for name, rows in inp}
         errs = []
+        # input names with a haplotype prefix (hap1_scaffold_1) are routed by that name (C09): for them only "comes out
+        # unchanged, once" is asserted; every other scaffold must be in the primary output, and nothing else anywhere
+        prefixed = {name for name, _ in inp if re.match(r"(?i)hap\d+_", name)}
+        if prefixed:
+            for k, scs in ospec.items():
+                if k is not None and any(n not in prefixed for n, _ in scs):
+                    errs.append(("extra-assembly", f"assembly {k!r} holds {[n for n, _ in scs]!r}"))
+            others = [(n, rows) for k, scs in ospec.items() if k is not None for n, rows in scs]
+            ospec = {None: [*ospec.get(None, []), *others]}
         if list(ospec) != [None]:
             errs.append(("extra-assembly", f"assembly keys {list(ospec)!r}"))
         if (st.cuts, st.breaks, st.joins) != (0, 0, 0):
@@ -159,7 +171,34 @@ class C08(Check):
             ctx.violation(klass + tag, case, detail)
         ctx.outcome(h64((ospec, st.cuts, st.breaks, st.joins)))
 
+    def run_mixed(self, bpt, tier, ctx):
+        """inputs that mix haplotype-prefixed and plain scaffold names, in every order, unpainted null maps"""
+        lens = (2, 5, 9)
+        names = ("hap1_scaffold_1", "scaffold_2", "HAP2_SCAFFOLD_3", "scaffold_4")
+        for style in ("tpf", "fasta"):
+            for k in (2, 3):
+                for chosen in itertools.permutations(names, k):
+                    if not (any(n.lower().startswith("hap") for n in chosen) and any(not n.lower().startswith("hap") for n in chosen)):
+                        continue
+                    for ll in itertools.product(lens, repeat=k):
+                        inp = tuple(
+                            (n, pv.scaffold_rows(style, n, (ln, 3), (SEPS[1],), (1, 1)) if i == 0 else pv.scaffold_rows(style, n, (ln,), (), (1,)))
+                            for i, (n, ln) in enumerate(zip(chosen, ll))
+                        )
+                        per = []
+                        for _, rows in inp:
+                            ch = [n for n in pv.texel_counts(pv.scaffold_length(rows), bpt) if n == 0 or last_contig_len(rows) >= bpt]
+                            per.append(ch)
+                        if not all(per):
+                            continue
+                        for counts in itertools.product(*per):
+                            for order in (0, 1) if all(counts) else (0,):
+                                self.run_case(inp, bpt, counts, order, False, ctx)
+        ctx.sample({"mixed_names": list(names), "bpt": bpt})
+
     def run_shard(self, shard, ctx):
+        if shard[0] == "mixed":
+            return self.run_mixed(shard[1], shard[2], ctx)
         bpt, chunk, chunks, tier = shard
         sa = scaffolds_a(tier)
         for i, a in enumerate(sa):
@@ -211,3 +250,5 @@ class C08(Check):
 
 
 CHECK = C08()
+# scope added in later rounds, kept in the evidence text
+CHECK.rule += " Mixed-name family: inputs of 2-3 scaffolds that mix haplotype-prefixed names (hap1_scaffold_1, HAP2_SCAFFOLD_3) with plain ones, every order; prefixed scaffolds must come out unchanged exactly once (their assembly is C09's business), every other scaffold in the primary output, nothing else anywhere."
